@@ -27,3 +27,6 @@ LEVEL_TEXT = ("Deductive: every function between the property and the code (orde
               "marking-to-market, transact, holdings_values, net_liquidation_value) carries a contract; the one-trade NLV "
               "identity is the postcondition of Broker.transact over all real inputs satisfying the property's quantifier, "
               "discharged per path by z3 (cvc5/z3-4.8 fallback). Proved outside the recorded dust region D3 (known finding).")
+
+from shell import runtime as _runtime
+SHELL = [_runtime.contracts_at_run_time]
